@@ -565,6 +565,7 @@ void run_line(std::ostream &out, world &w, std::string const &line)
     }
     if (t.v.empty()) return;
     out << "> " << line << "\n";
+    if (t.v[0][0] == '#') return;  // comment / expectation lines are only echoed
     std::string const k = t.str();
     if (k == "CASE") { w = world{}; }
     else if (k == "END") {}
